@@ -2,8 +2,7 @@
   C20 helper lemmas, part 8: from history (ghost) variables back to label lists, and the
   `quiet` predicate used by the lingering witness.
 -/
-import Kopf.Lemmas.C20_InvD2
-import Kopf.Lemmas.C20_InvE
+import Kopf.Lemmas.C20_Reach
 namespace Kopf.C20
 
 theorem startupDone_step {cfg : Cfg} {s s' : State} {l : Label} (h : step cfg s l = some s')
